@@ -7,6 +7,24 @@ VERIF = Path(__file__).resolve().parents[1]
 
 # id -> (technique, level text, level note, design ref)
 CLAIMED = {
+    "C03": (
+        "Lean 4 composition theorem pass_sound over arbitrary path lists (PASS with no flag implies no admissible input fails, from explicit hypotheses H1 coverage [C02/C10], H2 path faithfulness [C01/C12], H3 query = path [C11/C13], H4 solver sound on unsat) + setup_single_path; end-to-end differential run of the real run_contract on generated test contracts (guarded assertion failures: equalities, inequalities, arithmetic needing refinement, hashes, array lengths, storage set in setUp; static and dynamic parameters) against brute force on the Lean reference EVM, both solvers and both storage layouts, with replay of every printed counterexample",
+        "Composition proof as strong as its premises (each premise is another property's theorem/check; the solver's soundness on unsat is a stated hypothesis); the end-to-end half is a differential exploration (no PASS on a reachable failure in ~130 tests per quick run)",
+        "Trusted: Lean kernel, Spec.Evm, the artifact fabricator (hand-assembled forge JSON), external solvers yices/z3",
+        "DESIGN.md §4 C03",
+    ),
+    "C15": (
+        "Lean 4 theorems on a model of _compute_frontier: frontier_complete_digest (no assumption on the digest: every state reached by n calls is represented at some level <= n or a prefix was merged into a state with equal digest, by induction on depth), frontier_complete under DigestFaithful, dedup_only_identical, filters_as_foundry_*, invariant_checked_each, and decide-proved counterexamples showing the current digest is not faithful (Block fields) — replayed on the real code; end-to-end differential run of invariant tests on stateful target contracts against a breadth-first brute force of all call sequences on the Lean reference EVM (depths 0-3, all six target/exclude filters)",
+        "Proof of the frontier/dedup/filter logic on the model; coverage of each transaction's paths inherits C02; the recorded digest finding shows the faithful-digest hypothesis fails for block fields",
+        "Trusted: Lean kernel, Spec.Evm + Driver/E2e brute force, Model.Frontier (hand model), digest collision-freedom (hypothesis)",
+        "DESIGN.md §4 C15",
+    ),
+    "C20": (
+        "Lean 4 theorems on an abstract heap: isolation (if every in-place-mutated field is copied to the depth of the mutation at a fork site, no operation sequence on the child changes the parent), copy_table_ok by `decide` on the copy-mode table of the Exec(...) construction sites regenerated from sevm.py each run, order_independent on the abstract runTests model; dynamic checks: every order/subset/repetition of the tests of generated contracts through the real run_contract with normalised results, uid streams replaced, deep fingerprints of sibling worklist states before/after the other sibling runs",
+        "Proof over a heap abstraction + extracted copy table; which fields are mutated in place is a hand table validated dynamically; singletons and logger de-duplication are covered by the dynamic check only (one recorded finding)",
+        "Trusted: Lean kernel, Model.Heap, extractor copy_table.py, the fingerprinting harness; runs use --solver-timeout-branching 0 (path counts vary with the 1 ms default; stated assumption)",
+        "DESIGN.md §4 C20",
+    ),
     "C04": (
         "Lean 4 theorems (const_roundtrip for every width/value in the three solver syntaxes by induction on digits, valid_means_no_abstraction, abstract_never_valid, printed_is_model) over an executable model of solve.py's model parsing and labelling; tied to the code by an extractor for the regex/needle/dispatch tables and a differential run of the real parser, from_result, is_model_valid and the real counterexample callback on real yices/z3 outputs and synthetic ones",
         "Proof for the parsing/labelling half (all widths, all values); reproducibility of valid counterexamples on the reference EVM is exercised by the C01/C03 engines, not proved here",
@@ -30,6 +48,12 @@ CLAIMED = {
         "Proof for location terms of the stated layout grammar under the documented HashIdeal assumption; outside the grammar the code raises (stuck, fail-safe); normalize's re-association is a parameter; cross-shape aliasing is shown impossible to decide by decode alone (proved counterexample) and relies on Solidity typing",
         "Trusted: Lean kernel, Spec.Keccak (validated against eth_hash each run), Model.Storage/Model.OffsetMap (hand models, correspondence-validated), z3 term shapes",
         "DESIGN.md §4 C08",
+    ),
+    "C13": (
+        "Lean 4 theorems: selectors_ok (every cheatcode selector in assertions.py/cheatcodes.py/console.py equals the Keccak selector of its Forge-std signature, kernel-evaluated Keccak, tables regenerated from the source each run), handler_semantics (for every table entry, all calldata and interpretations, the condition built denotes the Forge-std relation: unsigned/signed order, bitwise equality, element-wise array equality, length-sensitive bytes/string), assert_fail_exact, assume_exact, fail_propagates (any nesting depth), derive_agrees/table ties; differential run of the real handler on all 76 selectors + vm.assume (direct and through generated SEVM programs at nesting depth 0-1, quick) against the Lean model and the Forge spec, plus end-to-end verdicts",
+        "Full proof for word types and for bytes/string/T[] with concrete offsets (symbolic offsets raise -> stuck, stated); two recorded findings about truncated cheatcode calldata",
+        "Trusted: Lean kernel, Spec.Keccak (validated against eth_hash), Spec.Forge (Forge-std semantics as read by us), Model.Assertions, extractors selectors.py / assert_table.py",
+        "DESIGN.md §4 C13",
     ),
     "C14": (
         "Lean 4 theorems: prank_refines (the Model's (msg.sender, tx.origin) per frame equals the Foundry state machine for ALL histories without console calls, by induction with a frame-stack invariant; the console case is a proved counterexample = recorded finding), prank_scope_*, prank_no_override, create_width_range_* / create_fresh for every encoder, state_cheats_exact; the lookup exclusion list and resolve_prank call sites are regenerated from the source; differential run of exhaustive short prank histories and random call trees, every state cheatcode and every create*/random* selector on the real SEVM against Model, Spec and the reference EVM",
